@@ -267,11 +267,67 @@ def main():
       if abs(ext - mext) > 1:
         rep.violation(f"extract-sum-{mi}", f"extract_energy_sum {ext} but the selected entries sum to floor {mext}", {"options": opts})
   rep.note(energy=dict(maps=len(eitems)))
+  # ---- the real pipeline: QTools(model).pe() on whole models (graph builder under the accessor shims of harness/env.py)
+  env.install_keras2_graph_shims()
+  env.install_learning_phase()
+  env.set_phase(0)
+  import c18 as C18
+  from qkeras.quantizers import get_quantizer
+  nreal = 8 if rep.tier == "quick" else 80
+  n_real_layers = 0
+  for mi in range(nreal):
+    try:
+      m, meta = C18.gen_model(rng, 7000 + mi)
+      m.set_weights([rng.normal(0, 0.7, size=w.shape).astype(np.float32) for w in m.get_weights()])
+      m(tf.constant(rng.normal(0, 1, size=(1,) + tuple(m.input_shape[1:])).astype(np.float32)))   # auto scales get a value
+      qt = QTools(m, process="horowitz", source_quantizers=[get_quantizer("quantized_bits(8,2,1)")], is_inference=False, weights_path=None,
+                  keras_quantizer="fp32", keras_accumulator="fp32", for_reference=False)
+      wm, am = str(rng.choice(["dram", "sram", "fixed"])), str(rng.choice(["dram", "sram"]))
+      res = qt.pe(weights_on_memory=wm, activations_on_memory=am, min_sram_size=int(rng.choice([0, 1000000])), rd_wr_on_io=bool(rng.integers(0, 2)))
+    except Exception as e:  # pylint: disable=broad-except
+      rep.violation(f"real-pipeline-raises-{mi}", f"QTools(model).pe() raised {type(e).__name__}: {str(e)[:200]}", {})
+      continue
+    rep.count(("real", m.to_json(), wm, am))
+    lmap = qt._layer_map["layer_data_type_map"]  # pylint: disable=protected-access
+    ssum = 0.0
+    for l in m.layers[1:]:
+      e = lmap[l]
+      cnt = e["operation_count"] if isinstance(e, dict) else e.operation_count
+      cn = type(l).__name__
+      if cn in ("QDense", "QConv1D", "QConv2D", "QDepthwiseConv2D"):
+        n_real_layers += 1
+        k = l.get_weights()[0]
+        osh = tuple(l.output.shape)
+        if cn == "QDense":
+          true = int(k.shape[0] * k.shape[1])
+        elif cn == "QDepthwiseConv2D":
+          true = int(np.prod(osh[1:3]) * np.prod(k.shape[:2]) * k.shape[2] * k.shape[3])
+        else:
+          true = int(np.prod(osh[1:-1]) * np.prod(k.shape))
+        if int(cnt) != true:
+          rep.violation(f"real-op-count-{mi}-{l.name}", f"{cn} {l.name} kernel {k.shape} output {osh}: QTools reports operation_count {cnt}, the loop nest has {true} MACs",
+                        {"layer": cn, "kernel": list(k.shape), "output": [int(v) for v in osh[1:]]})
+        en = res[l.name]["energy"]
+        m_, a_ = e["multiplier"], e["accumulator"]
+        op = "fpm" if not m_.output.is_floating_point else "fp" + str(m_.output.bits)
+        c1 = m_.gate_factor * qenergy.OP[op][m_.implemented_as()](m_.gate_bits)
+        opa = "fpm" if not a_.output.is_floating_point else "fp" + str(a_.output.bits)
+        c2 = qenergy.OP[opa]["add"](a_.output.bits)
+        want = float("{0:.2f}".format(cnt * (c1 + c2)))
+        if abs(want - en["op_cost"]) > 1e-6 * max(1.0, abs(want)):
+          rep.violation(f"real-op-cost-{mi}-{l.name}", f"{l.name}: op_cost {en['op_cost']} is not count*(mult+add) = {want}", {})
+      en = res[l.name]["energy"]
+      if min(en["inputs"], en["outputs"], en["parameters"], en["op_cost"]) < 0:
+        rep.violation(f"real-negative-energy-{mi}-{l.name}", f"{l.name}: negative energy entry {en}", {})
+      ssum += en["inputs"] + en["outputs"] + en["parameters"] + en["op_cost"]
+    if abs(res["total_cost"] - ssum) > 1 + len(m.layers) / 50.0:
+      rep.violation(f"real-total-{mi}", f"total_cost {res['total_cost']} but the layer entries sum to {ssum}", {})
+  rep.note(real_pipeline=dict(models=nreal, weighted_layers=n_real_layers))
   rep.assumptions += ["Keras' compute_output_shape is compared with the Coq extent functions on every generated geometry (a Section-free function, proved to "
                       "characterise the admissible window positions)",
                       "energy polynomials / log2 of qenergy are float64 functions: entries are compared with an independent float64 recomputation, "
                       "totals with exact rational sums of the printed entries (Coq QArith)",
-                      "QTools(model) cannot be built under the pinned Keras; energy_estimate runs on synthetic layer maps with stand-in layers"]
+                      "QTools(model) needs four Keras-2 accessors (harness/env.install_keras2_graph_shims, see C18): with them the real pipeline runs on generated models; energy_estimate is also run on synthetic layer maps with stand-in layers to reach option combinations quickly"]
   return rep.finish(vlib.TRUSTED_COMMON + ["model QTools/OpCount.v is hand-written; tie = comparison with get_operation_count / Keras on every generated geometry"])
 
 
